@@ -35,8 +35,25 @@ pub enum Entry {
     /// the value an existing valid newtype holds after `deserialize_in_place` with the start input's document
     /// (whether that call succeeded or failed)
     DeInPlace,
+    /// `Arbitrary::arbitrary` on the bytes of the start value
+    Arbitrary,
+    /// serde's in-memory value deserializers (`glue::de_value`): the primitive's own, and a one-element sequence
+    DeValue,
+    DeValueSeq,
 }
-const ENTRIES: [Entry; 8] = [Entry::TryNew, Entry::TryFromOwned, Entry::TryFromStr, Entry::FromStr, Entry::FromRefStr, Entry::DeJson, Entry::DeMsgPack, Entry::DeInPlace];
+const ENTRIES: [Entry; 11] = [
+    Entry::TryNew,
+    Entry::TryFromOwned,
+    Entry::TryFromStr,
+    Entry::FromStr,
+    Entry::FromRefStr,
+    Entry::DeJson,
+    Entry::DeMsgPack,
+    Entry::DeInPlace,
+    Entry::Arbitrary,
+    Entry::DeValue,
+    Entry::DeValueSeq,
+];
 
 #[derive(Clone, Debug)]
 pub struct Chain<I> {
@@ -110,6 +127,9 @@ pub fn check<I: Inputs>(vt: &'static Vt<I>, ctx: &Ctx) -> DeclReport {
                     _ => None,
                 }
             }
+            Entry::Arbitrary => vt.arbitrary.and_then(|f| f(&c.start.key()).ok()),
+            Entry::DeValue => vt.de_value.and_then(|f| f(c.start.clone(), 0)).and_then(|r| r.ok()),
+            Entry::DeValueSeq => vt.de_value.and_then(|f| f(c.start.clone(), 1)).and_then(|r| r.ok()),
             Entry::DeInPlace => match (vt.de_in_place, crate::props::c04::valid_start(vt), enc(Fmt::Json, &c.start)) {
                 (Some(dip), Some(base), Ok(doc)) => dip(base, Fmt::Json, &doc).map(|(_ok, after)| after),
                 _ => None,
@@ -125,7 +145,9 @@ pub fn check<I: Inputs>(vt: &'static Vt<I>, ctx: &Ctx) -> DeclReport {
             // idempotent - at the obtained value, or at the value the model expects this start to yield
             // (an entry point that skips the sanitizers hands out a value that is not a fixed point)
             let fixed = |x: &I| matches!(crate::model::construct(m, x.clone()), Ok(ref y) if y.same(x));
-            let gate = !has_custom_san || fixed(&v0) || matches!(crate::model::construct(m, c.start.clone()), Ok(ref e) if fixed(e));
+            // (Arbitrary uses the start only as bytes: the value it yields is unrelated to it)
+            // a chain of one function declared idempotent is idempotent everywhere
+            let gate = !has_custom_san || m.sans.len() == 1 || fixed(&v0) || (c.entry != Entry::Arbitrary && matches!(crate::model::construct(m, c.start.clone()), Ok(ref e) if fixed(e)));
             if gate {
                 match no_panic(|| (vt.ctor)(v0.clone())) {
                     Ok(Ok(x)) if x.same(&v0) => {}
@@ -229,6 +251,8 @@ pub fn check<I: Inputs>(vt: &'static Vt<I>, ctx: &Ctx) -> DeclReport {
             Entry::FromStr => vt.from_str.is_some() || vt.from_str_s.is_some(),
             Entry::DeJson | Entry::DeMsgPack => vt.de.is_some(),
             Entry::DeInPlace => vt.de_in_place.is_some(),
+            Entry::Arbitrary => vt.arbitrary.is_some(),
+            Entry::DeValue | Entry::DeValueSeq => vt.de_value.is_some(),
         })
         .collect();
     for (i, s) in starts.iter().enumerate() {
